@@ -150,8 +150,6 @@ func newBufs(max int) *bufs {
 	return &bufs{mon.NewGuard(max), mon.NewGuard(max), mon.NewGuard(max), mon.NewGuard(max), mon.NewGuard(max), mon.NewGuard(max)}
 }
 
-func (b *bufs) all() []*mon.Guard { return []*mon.Guard{b.nonce, b.pt, b.aad, b.dst, b.ct, b.out} }
-
 // arena hands out the smallest set of guards that holds the case: the canary scan
 // of mon.Guard.Check is linear in the size of the region.
 type arena struct {
